@@ -80,6 +80,23 @@ void *lib_memcpy(void *d, const void *s, size_t n) {
   return d;
 }
 
+/* realloc: calls are redirected to this copy of the seq_common.h model that keeps the elements at TWO ghost indices
+ * (g_idx and g_idx2): a self-append relates the byte at a source position and the byte at a destination position, and
+ * both must survive a later reallocation. */
+int32_t g_idx2;
+void *lib_realloc(void *p, size_t n) {
+  g_re_called = 1;
+  if (nd_int()) return SEQ_NULL;
+  uint8_t *q = malloc(n);
+  if (q == SEQ_NULL) return SEQ_NULL;
+  if (p != SEQ_NULL) {
+    if (g_idx >= 0 && (size_t)g_idx < __CPROVER_OBJECT_SIZE(p) && (size_t)g_idx < n) q[g_idx] = ((uint8_t *)p)[g_idx];
+    if (g_idx2 >= 0 && (size_t)g_idx2 < __CPROVER_OBJECT_SIZE(p) && (size_t)g_idx2 < n) q[g_idx2] = ((uint8_t *)p)[g_idx2];
+    free(p);
+  }
+  return q;
+}
+
 static Janet *mk_args(void) {
   g_argc = nd_i32();
   __CPROVER_assume(g_argc >= 0);
@@ -141,8 +158,7 @@ void h_buffer_push_##name(void) { \
 #else
 /* domain restriction: a finite double beyond the float range makes the conversion (float) x overflow - undefined by
  * C99 6.3.1.5 (Annex F / IEEE 754 implementations yield an infinity). Unit lib.buffer.push_float32.anydouble keeps it. */
-#define F32_DOMAIN __CPROVER_requires(argc < 3 || !IS_NUM(argv[2]) || janet_unwrap_number(argv[2]) != janet_unwrap_number(argv[2]) || \
-  janet_unwrap_number(argv[2]) == 1.0 / 0.0 || janet_unwrap_number(argv[2]) == -1.0 / 0.0 || \
+#define F32_DOMAIN __CPROVER_requires(argc < 3 || !IS_NUM(argv[2]) || __CPROVER_isnand(janet_unwrap_number(argv[2])) || __CPROVER_isinfd(janet_unwrap_number(argv[2])) || \
   (janet_unwrap_number(argv[2]) <= 3.4028234663852886e38 && janet_unwrap_number(argv[2]) >= -3.4028234663852886e38))
 #endif
 PUSH_SCALAR(uint16, 2, argv[2].u64 & 0xFFFFull, )
@@ -200,7 +216,8 @@ CF_PRE CF_FRAME RET_ARG0 NEVER_FOREIGN_REALLOC PREFIX_KEPT
 __CPROVER_requires(argc <= LIB_MAXARGC)
 #endif
 __CPROVER_ensures(WF_BUFFER(g_buf) && (int64_t)g_buf->count == (int64_t)g_oldcount + argc - 1)
-__CPROVER_ensures((g_j >= 1 && g_j < argc) ==> g_buf->data[g_oldcount + g_j - 1] == (uint8_t)(SLOT_INT(argv, g_j) & 0xFF))
+/* (content is stated at the ghost position g_idx, the position the allocator model preserves across reallocations) */
+__CPROVER_ensures((g_idx >= g_oldcount && g_idx < g_buf->count) ==> g_buf->data[g_idx] == (uint8_t)(SLOT_INT(argv, g_idx - g_oldcount + 1) & 0xFF))
 ;
 void h_buffer_u8(void) { Janet *argv = mk_args(); cfun_buffer_u8(g_argc, argv); REACH("buffer/push-byte returns");
   if (g_argc > 2 && g_buf->capacity != g_oldcap) REACH("buffer/push-byte returns after growing"); }
@@ -226,7 +243,7 @@ __CPROVER_requires((g_j >= 1 && g_j < argc) ==> WORD_DOMAIN(argv, g_j))
 __CPROVER_requires((argc > 1 ==> WORD_DOMAIN(argv, 1)) && (argc > 2 ==> WORD_DOMAIN(argv, 2)) && (argc > 3 ==> WORD_DOMAIN(argv, 3)))
 __CPROVER_ensures(WF_BUFFER(g_buf) && (int64_t)g_buf->count == (int64_t)g_oldcount + 4 * ((int64_t)argc - 1))
 __CPROVER_ensures((g_j >= 1 && g_j < argc) ==> WORD_OK(argv, g_j))
-__CPROVER_ensures((g_j >= 1 && g_j < argc && g_mm < 4) ==> g_buf->data[g_oldcount + 4 * (g_j - 1) + g_mm] == (uint8_t)(((uint32_t)WORD_X(argv, g_j) >> (8 * g_mm)) & 0xFF))
+__CPROVER_ensures((g_idx >= g_oldcount && g_idx < g_buf->count) ==> g_buf->data[g_idx] == (uint8_t)(((uint32_t)WORD_X(argv, (g_idx - g_oldcount) / 4 + 1) >> (8 * ((g_idx - g_oldcount) % 4))) & 0xFF))
 ;
 void h_buffer_word(void) { Janet *argv = mk_args(); cfun_buffer_word(g_argc, argv); REACH("buffer/push-word returns");
   if (g_argc > 2 && g_buf->capacity != g_oldcap) REACH("buffer/push-word returns after growing"); }
@@ -234,16 +251,17 @@ void h_buffer_word(void) { Janet *argv = mk_args(); cfun_buffer_word(g_argc, arg
 /* ---- (buffer/push-string buffer & xs) / (buffer/push buffer & xs): the byte sequences (push: a number pushes its low
  * byte) are appended in order - possibly the buffer itself, whose content AT THAT MOMENT is appended; prefix unchanged;
  * raises instead of exceeding INT32_MAX; foreign memory never reallocated; returns buffer.
- * Lengths: L1 / L2 = length of what slot 1 / 2 contributes, C1 = length after slot 1. */
+ * Lengths: L1 / L2 = length of what slot 1 / 2 contributes, C1 = length after slot 1. Content is stated at the ghost
+ * positions g_idx (destination) and g_idx2 (source of a self-append) - the positions the allocator model preserves. */
 #define ITEM_NUM(argv, k) (g_push_numbers && IS_NUM((argv)[k]))
 #define L_OF(argv, k) ((int64_t)(ITEM_NUM(argv, k) ? 1 : g_len[k]))
 #define C1(argv) ((int64_t)g_oldcount + (argc > 1 ? L_OF(argv, 1) : 0))
 #define C2(argv) (C1(argv) + (argc > 2 ? L_OF(argv, 2) : 0))
 #define ITEM_POST(argv, k, start) \
-  __CPROVER_ensures((argc > (k) && ITEM_NUM(argv, k)) ==> g_buf->data[start] == (uint8_t)(SLOT_INT(argv, k) & 0xFF)) \
+  __CPROVER_ensures((argc > (k) && ITEM_NUM(argv, k) && (start) == g_idx) ==> g_buf->data[g_idx] == (uint8_t)(SLOT_INT(argv, k) & 0xFF)) \
   __CPROVER_ensures((argc > (k) && !ITEM_NUM(argv, k)) ==> (g_fetched[k] == 1 && g_len[k] == (g_self[k] ? (start) : (int64_t)g_bytes.len))) \
-  __CPROVER_ensures((argc > (k) && !ITEM_NUM(argv, k) && !g_self[k] && g_mm < (size_t)g_bytes.len) ==> g_buf->data[(start) + (int64_t)(g_mm & 0x7FFFFFFF)] == g_bytes.bytes[g_mm]) \
-  __CPROVER_ensures((argc > (k) && !ITEM_NUM(argv, k) && g_self[k] && g_mm < (size_t)(start)) ==> g_buf->data[(start) + (int64_t)(g_mm & 0x7FFFFFFF)] == g_buf->data[g_mm])
+  __CPROVER_ensures((argc > (k) && !ITEM_NUM(argv, k) && !g_self[k] && g_mm < (size_t)g_bytes.len && (start) + (int64_t)(g_mm & 0x7FFFFFFF) == g_idx) ==> g_buf->data[g_idx] == g_bytes.bytes[g_mm]) \
+  __CPROVER_ensures((argc > (k) && !ITEM_NUM(argv, k) && g_self[k] && g_mm < (size_t)(start) && (start) + (int64_t)(g_mm & 0x7FFFFFFF) == g_idx && (int64_t)(g_mm & 0x7FFFFFFF) == g_idx2) ==> g_buf->data[g_idx] == g_buf->data[g_idx2])
 int g_push_numbers;
 #define PUSH_CONTRACT(fn) \
 static Janet fn##_c(int32_t argc, Janet *argv) \
